@@ -452,15 +452,28 @@ func checkPCVAtCommit(r *runner, rec CommitRec) []Violation {
 				amount  *big.Int
 				in, out *big.Int
 			}
-			var want []exp
+			// per posting: the two moves in the order the repository writes them (source, then destination), and
+			// the other order (destination first) - within one posting either order is "applying the posting"
+			var want, alt []exp
 			touched := map[string]bool{}
 			for _, p := range t.Postings {
 				s := get(p.Source, p.Asset)
+				sIn0, sOut0 := new(big.Int).Set(s.in), new(big.Int).Set(s.out)
+				d0 := get(p.Destination, p.Asset)
+				dIn0, dOut0 := new(big.Int).Set(d0.in), new(big.Int).Set(d0.out)
 				s.out.Add(s.out, p.Amount)
 				want = append(want, exp{true, p.Source, p.Asset, p.Amount, new(big.Int).Set(s.in), new(big.Int).Set(s.out)})
 				d := get(p.Destination, p.Asset)
 				d.in.Add(d.in, p.Amount)
 				want = append(want, exp{false, p.Destination, p.Asset, p.Amount, new(big.Int).Set(d.in), new(big.Int).Set(d.out)})
+				// destination first
+				aDstIn := new(big.Int).Add(dIn0, p.Amount)
+				alt = append(alt, exp{false, p.Destination, p.Asset, p.Amount, aDstIn, dOut0})
+				if p.Source == p.Destination {
+					alt = append(alt, exp{true, p.Source, p.Asset, p.Amount, aDstIn, new(big.Int).Add(sOut0, p.Amount)})
+				} else {
+					alt = append(alt, exp{true, p.Source, p.Asset, p.Amount, sIn0, new(big.Int).Add(sOut0, p.Amount)})
+				}
 				touched[p.Source+"\x00"+p.Asset] = true
 				touched[p.Destination+"\x00"+p.Asset] = true
 			}
@@ -497,10 +510,14 @@ func checkPCVAtCommit(r *runner, rec CommitRec) []Violation {
 				vs = append(vs, Violation{prop, "moves-follow-the-postings", fmt.Sprintf("commit %d: ledger %s tx %d: %d moves recorded for %d postings", rec.Seq, l, *t.ID, len(got), len(t.Postings))})
 				continue
 			}
+			match := func(m *MoveRow, w exp) bool {
+				return m.IsSource == w.src && m.Account == w.account && m.Asset == w.asset && m.Amount.Cmp(w.amount) == 0 && m.PCV != nil && sameVolumes(*m.PCV, w.in, w.out) &&
+					m.EffectiveDate.Equal(t.Timestamp) && m.InsertionDate.Equal(t.InsertedAt)
+			}
 			for i, m := range got {
 				w := want[i]
-				ok := m.IsSource == w.src && m.Account == w.account && m.Asset == w.asset && m.Amount.Cmp(w.amount) == 0 && m.PCV != nil && sameVolumes(*m.PCV, w.in, w.out) &&
-					m.EffectiveDate.Equal(t.Timestamp) && m.InsertionDate.Equal(t.InsertedAt)
+				pi := i - i%2
+				ok := (match(got[pi], want[pi]) && match(got[pi+1], want[pi+1])) || (match(got[pi], alt[pi]) && match(got[pi+1], alt[pi+1]))
 				if !ok {
 					pcv := "nil"
 					if m.PCV != nil {
